@@ -151,6 +151,22 @@ func (in *Interp) intrinsic(fn *ssa.Function, args []Value, site *ssa.Call) (Val
 			return SliceV{o, ts.Const(64, 0), one, one}, true
 		}
 		return nil, false
+	// ----- cryptographic hashes of pkg/auth as uninterpreted, collision-free
+	// functions: the hex digest is built from 64-bit uninterpreted words of the
+	// (length, bytes) of the input; for every two applications on a path the
+	// axiom "equal digests => equal inputs" is added (the cryptographic
+	// assumption, stated in the evidence).
+	case "github.com/bluenviron/gortsplib/v5/pkg/auth.md5Hex", "github.com/bluenviron/gortsplib/v5/pkg/auth.sha256Hex":
+		words := 2
+		nm := "md5"
+		if strings.HasSuffix(full, "sha256Hex") {
+			words = 4
+			nm = "sha256"
+		}
+		if c, ok := in.strConcrete(args[0].(StrV)); ok && in.eng.cfg.Params["HASHNATIVE"] != 0 {
+			_ = c
+		}
+		return in.hashHex(nm, words, args[0].(StrV)), true
 	// ----- regexp: compiled natively by the engine; matching runs natively on
 	// concrete subjects; a symbolic subject is only supported when a literal
 	// byte required by the pattern is provably absent (=> no match).
